@@ -204,6 +204,11 @@ def run_tissue(ck, case, reqs, pending):
     removed = [int(x) for x in pm.removed_columns]
     cells = list(frame.cells.keys())
     ncell = len(cells)
+    tab = impl.quiet(frame.get_pressures)
+    tabmap = {int(i): float(p_) for i, p_ in zip(tab["id"].tolist(), tab["pressure"].tolist())}
+    if set(tabmap) != {int(c_) for c_ in cells} or any(abs(tabmap[int(cid)] - float(cl.pressure)) > 1e-12 * (1 + abs(float(cl.pressure))) for cid, cl in frame.cells.items()):
+        ck.fail("the reported pressures (the table of get_pressures) are the cells' pressures, each under its own cell id",
+                f"ids {sorted(tabmap)[:6]}..., first mismatch among {[(int(cid), tabmap.get(int(cid)), float(cl.pressure)) for cid, cl in frame.cells.items() if tabmap.get(int(cid)) != float(cl.pressure)][:2]}", case)
     curv = [float(frame.big_edges[i].calculate_total_curvature(normalized=False)) for i in range(len(obs["earr"]))]
     kept_cols = [j for j in range(ncell) if j not in removed]
     # ---------------- S: rows against the geometry
